@@ -137,7 +137,7 @@ Example C05_meaning_nonvacuous :
   cmd_ok (ScrollRegion 0 usize_max) = true /\
   cmd_ok (Termcap [[97; 1]; [0]]) = true /\
   cmd_ok (Title [104; 233; 8364; 128512; 59]) = true /\
-  cmd_ok (Face (mkFace (Some (mkRgba 1 2 3 0)) (Some (mkRgba 255 255 255 255)) 255)) = true /\
+  cmd_ok (Face (mkFace (Some (mkRgba 1 2 3 0)) (Some (mkRgba 255 255 255 255)) 253)) = true /\
   cmd_ok (Color (TPalette usize_max) (Some (mkRgba 1 2 3 128))) = true /\
   encode (fun _ => 16) (fun _ => 0) (mkCaps TrueColor false true) (CursorMove i32_min 1)
     = Ok [27; 91; 49; 67; 27; 91; 50; 49; 52; 55; 52; 56; 51; 54; 52; 56; 65] /\
